@@ -123,7 +123,17 @@ PopItemOutcomes(s) ==       \* Mapping.popitem(): first key in iteration order
          IN {Out(<<"item", k, s.vals[k]>>, Tail(s.order), Drop(s.vals, k))}
     ELSE Unchanged(s, {<<"KeyError">>})
 
+\* sort(key=f, reverse=r): list.sort is STABLE also when reversed -- keys that tie under f keep their order.
+\* f is "id" (the key itself: no ties) or "mod2" (key % 2: ties), the two sort keys the harness uses.
+SortKey(f, k) == IF f = "mod2" THEN k % 2 ELSE k
+StableSort(o, f, rev) ==
+    LET idx == 1..Len(o)
+        Before(i, j) == LET a == SortKey(f, o[i])  b == SortKey(f, o[j])
+                        IN (IF rev THEN a > b ELSE a < b) \/ (a = b /\ i < j)
+        Rank(i) == Cardinality({j \in idx : Before(j, i)}) + 1
+    IN [r \in idx |-> o[CHOOSE i \in idx : Rank(i) = r]]
 SortOutcomes(s)    == {Out(<<"None">>, SortSet(Range(s.order)), s.vals)}
+SortByOutcomes(s, f, rev) == {Out(<<"None">>, StableSort(s.order, f, rev), s.vals)}
 ReverseOutcomes(s) == {Out(<<"None">>, Reverse(s.order), s.vals)}
 ClearOutcomes(s)   == {Out(<<"None">>, <<>>, [x \in {} |-> 0])}
 
@@ -159,6 +169,7 @@ Outcomes(s, o) ==
       [] o.name = "pop_at"     -> PopAtOutcomes(s, o.index)
       [] o.name = "popitem"    -> PopItemOutcomes(s)
       [] o.name = "sort"       -> SortOutcomes(s)
+      [] o.name = "sort_by"    -> SortByOutcomes(s, o.f, o.rev)
       [] o.name = "reverse"    -> ReverseOutcomes(s)
       [] o.name = "clear"      -> ClearOutcomes(s)
       [] o.name = "setdefault" -> SetDefaultOutcomes(s, o.k, o.v)
@@ -177,6 +188,7 @@ Ops ==
     \cup [name : {"delitem", "pop"}, k : Keys]
     \cup [name : {"pop_at"}, index : Indexes]
     \cup [name : {"popitem", "sort", "reverse", "clear"}]
+    \cup [name : {"sort_by"}, f : {"id", "mod2"}, rev : BOOLEAN]
     \cup [name : {"append"}, k : Keys, v : AllVals, replace : BOOLEAN]
     \cup [name : {"append_default"}, k : Keys, replace : BOOLEAN]
     \cup [name : {"extend"}, items : {<<<<k1, v1>>, <<k2, v2>>>> : k1 \in Keys, k2 \in Keys,
